@@ -313,7 +313,7 @@ def read_rest_base(src):
                 calls = [n for n in ast.walk(node) if isinstance(n, ast.Call) and ast.unparse(n.func) == "path_template.transcode"]
                 info["pins"].append(("transcode_call", [ast.unparse(c) for c in calls], ["path_template.transcode(http_options, pb_request)"]))
                 asg = [ast.unparse(s) for s in node.body if isinstance(s, ast.Assign) and getattr(s.targets[0], "id", "") == "pb_request"]
-                info["pins"].append(("pb_request", [bool(re.fullmatch(r"pb_request = [\w.]+\.pb\(request\)", a)) for a in asg], [True]))
+                info["pb_request"] = asg
             elif isinstance(node, ast.FunctionDef) and node.name in ("_get_request_body_json", "_get_query_params_json"):
                 if node.name == "_get_request_body_json":
                     info["body_json"] = True
@@ -384,6 +384,7 @@ def read_rest(src):
         if not raises:
             parses = [ast.unparse(c) for c in ast.walk(call) if isinstance(c, ast.Call) and ast.unparse(c.func) == "json_format.Parse"]
             info["parses"] = parses
+            info["pb_resp"] = [ast.unparse(st) for st in call.body if isinstance(st, ast.Assign) and getattr(st.targets[0], "id", "") in ("pb_resp", "resp")]
         out[cls.name[1:]] = info
     return out
 
@@ -444,7 +445,7 @@ def run_library(job):
                     "http_default": {"status": 200, "body": reply_json}}
             if stream_b64 is not None:
                 spec["consume"] = "stream"
-            cls = f"{A.PYPKG}:{ms['input'].split('.')[-1]}"
+            cls = A.py_class(req, ms["input"])
             if ms["client_streaming"]:
                 spec["request"] = {"mode": "stream", "cls": cls, "stream": [d.b64(m)]}
             else:
@@ -553,6 +554,19 @@ def evaluate(ctx, jobs, results, tag):
                     checks.append((f"T1 {lbl}: $alt literal {b['alt']}", f"str_pair_eqb alt_pair ({coq.s(a[0])}, {coq.s(a[1])})"))
                 elif b["alt"] is not None:
                     pins_bad.append(f"{lbl}: query_params[{b['alt'][0]!r}] assigned although rest-numeric-enums is off")
+                # proto-plus (API package) types are converted with .pb(), dependency (plain protobuf) types are used as they are:
+                # the REQUEST by its own type, the REPLY by the declared response type
+                in_pkg, out_pkg = A.in_package(ms["input"]), A.in_package(ms["output"])
+                want_req = [True] if in_pkg else [False]
+                got_req = [bool(re.fullmatch(r"pb_request = [\w.]+\.pb\(request\)", a)) for a in b.get("pb_request", [])]
+                if got_req != want_req or (not in_pkg and b.get("pb_request") != ["pb_request = request"]):
+                    pins_bad.append(f"{lbl}: request conversion {b.get('pb_request')} for a request type {'inside' if in_pkg else 'outside'} the API package")
+                if ms["output"] != ".google.protobuf.Empty" and not ms["server_streaming"]:
+                    conv = [x for x in rt.get("pb_resp", []) if x.startswith("pb_resp = ")]
+                    ok_conv = len(conv) == 1 and (bool(re.fullmatch(r"pb_resp = [\w.]+\.pb\(resp\)", conv[0])) if out_pkg else conv[0] == "pb_resp = resp")
+                    if not ok_conv:
+                        pins_bad.append(f"{lbl}: reply conversion {conv} for a response type {'inside' if out_pkg else 'outside'} the API package "
+                                        f"(request type {'inside' if in_pkg else 'outside'})")
                 for pn, got, want in b["pins"] + rt["pins"]:
                     if got != want:
                         pins_bad.append(f"{lbl}: {pn}: {got!r} != {want!r}")
@@ -571,6 +585,7 @@ def evaluate(ctx, jobs, results, tag):
                              "caller_request": json_format.MessageToDict(d.parse(ms["input"], c["caller_b64"]), preserving_proto_field_name=True)})
             binds = O.bindings_of(ms)
             feats = [f"family={c['family']}", f"bindings={len(binds)}", "numeric" if numeric else "names",
+                     f"request-{'api' if A.in_package(ms['input']) else 'dep'}/reply-{'api' if A.in_package(ms['output']) else 'dep'}",
                      "server-streaming" if ms["server_streaming"] else "client-streaming" if ms["client_streaming"] else "unary"]
             if c["ok"] and len(c["http"]) == 1:
                 feats.append("verb=" + c["http"][0]["verb"].lower())
@@ -770,6 +785,15 @@ def witness_api():
     svc.rpc("Tail", w.fqn, rep.fqn, ss=True, http=("post", "/v1/{name=items/*}:tail"), body="sub")
     svc.rpc("Follow", w.fqn, rep.fqn, ss=True, http=("get", "/v1/{name=items/*}:follow"))
     e = f.message("EchoRequest"); e.field("name", 1, "string")
+    # request / reply on either side of the API package boundary (seeded change C04-l): proto-plus types are converted
+    # with .pb(), dependency types are plain protobuf.  Crc etc. are api/api; these are dep/dep, dep/api, api/dep
+    f.dep("google/type/expr.proto"); f.dep("google/protobuf/empty.proto"); f.dep("google/iam/v1/policy.proto")
+    EXPR = ".google.type.Expr"
+    svc.rpc("Eval", EXPR, EXPR, http=("get", "/v1/{title=items/*}:eval"))
+    svc.rpc("Lookup", EXPR, rep.fqn, http=("post", "/v1/{title=items/*}:lookup"), body="*")
+    svc.rpc("GetSettings", ".google.protobuf.Empty", rep.fqn, http=("get", "/v1/settings"))
+    svc.rpc("Describe", e.fqn, EXPR, http=("get", "/v1/{name=items/*}:describe"))
+    svc.rpc("ReadPolicy", e.fqn, ".google.iam.v1.Policy", http=("post", "/v1/{name=items/*}:readPolicy"), body="*")
     kr = f.message("KwReply"); kr.field("ignore_unknown_fields", 1, "string").field("note", 2, "string")
     svc.rpc("Echo", e.fqn, kr.fqn, http=("get", "/v1/{name=items/*}:echo"))
     return apigen.request([f])
@@ -797,6 +821,9 @@ def run_witnesses(ctx):
     setattr(watch.sub, "class", "c7"); watch.sub.count = 7
     for mname in ("Watch", "Tail", "Follow"):
         fixed[mname] = [d.b64(watch)]
+    expr = d.new("google.type.Expr", title="items/e1", description="d", expression="a > b")
+    fixed.update({"Eval": [d.b64(expr)], "Lookup": [d.b64(expr)], "GetSettings": [d.b64(d.new("google.protobuf.Empty"))],
+                  "Describe": [d.b64(d.new(P + ".EchoRequest", name="items/i"))], "ReadPolicy": [d.b64(d.new(P + ".EchoRequest", name="items/i"))]})
     plain = d.new(P + ".PlainRequest", parent="shelves/s1", kind=2, filter="x")
     plain.sub.count = 4
     fixed["Plain"] = [d.b64(plain), d.b64(d.new(P + ".PlainRequest", parent="shelves/s1"))]
